@@ -43,6 +43,12 @@
 (* the C++ memory-model sense is not decided here; it is OBSERVED by ThreadSanitizer on the     *)
 (* executions recorded by harness/drivers/conc_rec.cpp (a report becomes a Race event that no   *)
 (* action of ApbpConcTrace explains).                                                           *)
+(*                                                                                              *)
+(* Configurations: MC_ApbpConc.cfg / _cb / _vec (quick, one channel, repaired locking),         *)
+(* MC_ApbpConc_mid / _thorough (thorough tier, two channels), MC_ApbpConc_live / _live_thorough *)
+(* (FairSpec, liveness), MC_ApbpConc_pinned (D7: LocksetOK must fail), MC_ApbpConc_pinned_vec   *)
+(* (vector registers: LocksetOK must fail), MC_ApbpConc_mut_inside (seeded mutation: NoDeadlock  *)
+(* must fail), Trace_ApbpConc.cfg (trace validation through ApbpConcTrace.tla).                 *)
 EXTENDS Integers, Sequences, FiniteSets, TLC, Bitwise
 
 CONSTANTS
